@@ -12,13 +12,12 @@ import CoxeterVerif.Lemmas.Codec
     of `_reorder_verts` (checked on every generated polygon, both orientations, by the harness);
   * `Spec.Equivariant M` — the centroid getter commutes with translations (property C09).
 -/
-namespace C19
-open Scalar
+open C19 Scalar
 set_option maxRecDepth 4000
 
 /-- a shape object that exists: it passed its own constructor, and the external predicates answer
 about the stored vertices as they did then. -/
-def Valid (E : Ext ℝ) : Shape ℝ → Prop
+def C19.Valid (E : Ext ℝ) : Shape ℝ → Prop
   | .circle r _ | .sphere r _ => 0 < r
   | .ellipse a b _ => 0 < a ∧ 0 < b
   | .ellipsoid a b c _ => 0 < a ∧ 0 < b ∧ 0 < c
@@ -108,7 +107,7 @@ theorem gsd_roundtrip (E : Ext ℝ) (s : Shape ℝ) (hv : Valid E s) (dim : Nat)
 /-- externals used by the examples: any array of ≥ 3 rows is planar and simple, cycles of at most
 four points are convex, the reorder leaves them alone, any normal is accepted, every point set
 is its own hull with one (dummy) face. -/
-def exE : Ext ℝ where
+def C19.exE : Ext ℝ where
   planarOk := fun vs => decide (3 ≤ vs.length)
   isSimple := fun _ => true
   isConvex := fun vs => decide (vs.length ≤ 4)
@@ -118,14 +117,11 @@ def exE : Ext ℝ where
   hullFaces := fun _ => [[0, 1, 2]]
 
 /-- a clockwise 3 × 2 rectangle far from the origin -/
-def exRect : List (V3 ℝ) := [⟨10, 20, 5⟩, ⟨10, 22, 5⟩, ⟨13, 22, 5⟩, ⟨13, 20, 5⟩]
+def C19.exRect : List (V3 ℝ) := [⟨10, 20, 5⟩, ⟨10, 22, 5⟩, ⟨13, 22, 5⟩, ⟨13, 20, 5⟩]
 /-- an L-shaped (non-convex) hexagon away from the origin -/
-def exL : List (V3 ℝ) := [⟨5, 5, 0⟩, ⟨7, 5, 0⟩, ⟨7, 6, 0⟩, ⟨6, 6, 0⟩, ⟨6, 7, 0⟩, ⟨5, 7, 0⟩]
+def C19.exL : List (V3 ℝ) := [⟨5, 5, 0⟩, ⟨7, 5, 0⟩, ⟨7, 6, 0⟩, ⟨6, 6, 0⟩, ⟨6, 7, 0⟩, ⟨5, 7, 0⟩]
 /-- a tetrahedron away from the origin -/
-def exTetV : List (V3 ℝ) := [⟨3, 3, 3⟩, ⟨4, 3, 3⟩, ⟨3, 4, 3⟩, ⟨3, 3, 4⟩]
-
-theorem norm_ez : V3.norm (⟨0, 0, -1⟩ : V3 ℝ) = 1 := by
-  simp [V3.norm, V3.normSq, V3.dot]
+def C19.exTetV : List (V3 ℝ) := [⟨3, 3, 3⟩, ⟨4, 3, 3⟩, ⟨3, 4, 3⟩, ⟨3, 3, 4⟩]
 
 example : Valid exE (.polygon exRect ⟨0, 0, -1⟩) ∧ Valid exE (.spheropolygon exRect 1 ⟨0, 0, -1⟩)
     ∧ Valid exE (.ellipsoid 1 2 3 ⟨7, 8, 9⟩) ∧ Valid exE (.spheropolyhedron exTetV (1/2)) := by
@@ -361,45 +357,9 @@ theorem hoomd_keys (M : Meas ℝ) (s : Shape ℝ) :
     refine ⟨_, _, by simp only [toHoomd, toHoomdRaw, spheropolyhedronToHoomd_eq]; rfl, ?_⟩
     rw [Dict.keys_resolve]; simp only [Dict.keys, List.map]; decide
 
-/-- measure getters used by the examples: the centre is the vertex mean; a measure's value records
-which vertex set it was evaluated on (sum of x-coordinates, rows of x-coordinates). -/
-noncomputable def exM : Meas ℝ where
-  cen := vertexMean
-  scalar := fun name vs => (name.length : ℝ) + (vs.map (·.x)).sum
-  tensor := fun vs => [vs.map (·.x), vs.map (·.y)]
-  scalarC := fun name c => (name.length : ℝ) + c.x
-  tensorC := fun c => [[c.x, c.y, c.z]]
-
-theorem exM_equivariant : Spec.Equivariant exM := fun vs t h => vertexMean_equivariant vs t h
-
 example : ∃ d s', toHoomd exM (.polygon exRect ⟨0, 0, -1⟩) = .ok (d, s') ∧
     (Dict.keys d).Perm ["vertices", "centroid", "sweep_radius", "area", "moment_inertia"] :=
   hoomd_keys exM (.polygon exRect ⟨0, 0, -1⟩)
-
-/-- centring (`centroid = 0`) moves the vertices to `original − centroid` -/
-theorem centre_recomputed (M : Meas ℝ) (vs : List (V3 ℝ)) (c0 : V3 ℝ) :
-    (setCentroid M .recomputed ⟨vs, c0⟩ V3.zero).verts = Spec.centred vs (M.cen vs) := by
-  simp only [setCentroid, centroidOf, map_shift_zero]
-
-theorem centre_cached (M : Meas ℝ) (vs : List (V3 ℝ)) :
-    (setCentroid M .cached ⟨vs, M.cen vs⟩ V3.zero).verts = Spec.centred vs (M.cen vs) := by
-  simp only [setCentroid, centroidOf, map_shift_zero]
-
-theorem centre_cached_cache (M : Meas ℝ) (vs : List (V3 ℝ)) :
-    (setCentroid M .cached ⟨vs, M.cen vs⟩ V3.zero).cache = M.cen (Spec.centred vs (M.cen vs)) := by
-  simp only [setCentroid, centroidOf, map_shift_zero]
-
-/-- the state a polytope is left in after `centre; …; restore` is the state it started in -/
-theorem restore_recomputed {M : Meas ℝ} (hM : Spec.Equivariant M) {vs : List (V3 ℝ)} (h : vs ≠ [])
-    (c0 : V3 ℝ) :
-    (setCentroid M .recomputed (setCentroid M .recomputed ⟨vs, c0⟩ V3.zero) (M.cen vs)).verts = vs := by
-  simp only [setCentroid, centroidOf, map_shift_zero, cen_centred hM h, map_shift_back]
-
-theorem restore_cached {M : Meas ℝ} (hM : Spec.Equivariant M) {vs : List (V3 ℝ)} (h : vs ≠ []) :
-    (setCentroid M .cached (setCentroid M .cached ⟨vs, M.cen vs⟩ V3.zero) (M.cen vs)).verts = vs := by
-  simp only [setCentroid, centroidOf, map_shift_zero, cen_centred hM h, map_shift_back]
-
-theorem v3list_zero : v3list (V3.zero : V3 ℝ) = [lit 0, lit 0, lit 0] := rfl
 
 /-- **`Polygon.to_hoomd` (and `ConvexPolygon`) describes the centred polygon**: the (x, y) vertices
 are the original ones minus the centroid, `centroid` is 0, `area` and `moment_inertia` are the
@@ -488,14 +448,6 @@ example : ∃ d, toHoomd exM (.sphere 2 ⟨5, 6, 7⟩) = .ok (d, .sphere 2 ⟨5,
 
 /-! ### ConvexSpheropolygon: the code violates the property (known finding) -/
 
-/-- the unit square `[0,1]²` (counter-clockwise), centroid `(1/2, 1/2, 0)` — the fixture of
-`tests/test_spheropolygon.py::test_to_hoomd` -/
-def unitSquare : List (V3 ℝ) := [⟨0, 0, 0⟩, ⟨1, 0, 0⟩, ⟨1, 1, 0⟩, ⟨0, 1, 0⟩]
-
-theorem exM_cen_unitSquare : exM.cen unitSquare = ⟨1/2, 1/2, 0⟩ := by
-  simp only [exM, vertexMean, unitSquare, V3.sum, List.foldr, V3.add, V3.zero, V3.sdiv, List.length]
-  norm_num [Scalar.lit]
-
 /-- what IS true of `ConvexSpheropolygon.to_hoomd` as coded, for every spheropolygon: the four
 documented keys, `centroid` reported as `[0,0,0]`, `sweep_radius` = the rounding radius, the shape
 left where it was — but `vertices` are the ORIGINAL (uncentred, 3-column) vertices and `area` is
@@ -536,4 +488,3 @@ theorem hoomd_spheropolygon_not_centred_fails :
   · simp [Spec.coords, Spec.centred, rows, unitSquare, h2c] at hv
   · simp [Spec.coords, Spec.centred, rows, unitSquare, h2c] at hv
 
-end C19
